@@ -215,6 +215,8 @@ def run_case(case):
     contention = {}
     gave_up = set()         # (client, lock): the client called release() after its last tryAcquire: it no longer considers the lock its own
     viol = []
+    seq = [0]
+    last_release = {}
 
     def V(sig, detail):
         if not viol:
@@ -227,13 +229,17 @@ def run_case(case):
         cl = clients()
         name = cl[a % len(cl)]
         lock = LOCKS[b % len(LOCKS)]
-        rec = {'client': name, 'lock': lock, 't': Wall.t, 'cbs': []}
+        seq[0] += 1
+        rec = {'client': name, 'lock': lock, 't': Wall.t, 'cbs': [], 'seq': seq[0]}
         attempts.append(rec)
         contention.setdefault(lock, set()).add(name)
-        gave_up.discard((name, lock))
         core.CLOCK.active = name
         def cb(r, e, rec=rec):
             rec['cbs'].append((r, e, Wall.t))
+            # a client that released considers the lock its own again only when a tryAcquire issued after that
+            # release is answered True (until then isAcquired() may still read the pre-release state of its replica)
+            if r and last_release.get((rec['client'], rec['lock']), 0) < rec['seq']:
+                gave_up.discard((rec['client'], rec['lock']))
             if not r and not any(r2 is not rec and r2['client'] == rec['client'] and r2['lock'] == rec['lock'] and r2['t'] >= rec['t'] for r2 in attempts):
                 gave_up.add((rec['client'], rec['lock']))      # told "not acquired" (e.g. too late): it does not consider the lock its own
         sim.call(name, lambda: sim.nodes[name].mgr.tryAcquire(lock, callback=cb))
@@ -244,6 +250,8 @@ def run_case(case):
         name = cl[a % len(cl)]
         lock = LOCKS[b % len(LOCKS)]
         gave_up.add((name, lock))
+        seq[0] += 1
+        last_release[(name, lock)] = seq[0]
         sim.call(name, lambda: sim.nodes[name].mgr.release(lock))
         return (name, lock)
 
